@@ -328,39 +328,41 @@ example : (decompGivens (1/100000000) [[0, ⟨3/5, 0⟩, ⟨0, 4/5⟩], [1, 0, 0
 
 /-! ## `givens_matrix_elements` -/
 
-/-- For every pair `(a, b)` in the exact regime (an entry below the tolerance is exactly zero, an imaginary
-part below the tolerance is exactly zero) on which the Model is defined, in all three branches and all four
+/-- For every pair `(a, b)` in the exact regime (an entry below the tolerance is exactly zero; an imaginary
+part of the relative phase `(a/|a|) conj(b/|b|)` below the tolerance is exactly zero - `RealExact`, the test of the
+repaired code 7be94873) on which the Model is defined, in all three branches and all four
 matrix forms: `G` is unitary, `G (a, b)ᵀ` has the promised zero, and the rotation
 `[[cos θ, -e^{iφ} sin θ], [sin θ, e^{iφ} cos θ]]` rebuilt from the returned parameters
 `θ = arcsin(Re G₁₀)`, `φ = angle(G₁₁)` is `G` itself (for `sine = 0` in the complex `which='right'`
-form this rests on `angle(-0.0) = π`, which the Model records in `negZero11`). -/
+form this rests on `angle(-0.0) = π`, which the Model records in `negZero11`; since repair 7be94873 the code
+reaches `sine = 0` only with `phase = 1.0`, i.e. in the real form, so that case is covered but no longer produced). -/
 theorem givens_matrix_elements_sound (tol : Rat) (htol : 0 < tol) (a b : GQ) (right : Bool) (G : G2)
     (hexa : small tol a = true → a = 0) (hexb : small tol b = true → b = 0)
-    (hreal : realish tol a b = true → a.im = 0 ∧ b.im = 0)
+    (hreal : RealExact tol a b)
     (h : givensElems tol a b right = .ok G) :
     G.Unitary ∧ G.Zeroes right a b ∧
     ∀ s c e, params G = .ok (s, c, e) → (rotationOf s c e).SameEntries G := by
-  unfold givensElems at h
-  cases hC : cosSinPhase tol a b with
-  | error e => simp [hC, bind, Except.bind] at h
-  | ok t =>
-    obtain ⟨c, s, ph⟩ := t
-    simp only [hC, bind, Except.bind] at h
-    injection h with h; subst h
-    have hcsp := cosSinPhase_spec htol hexa hexb hC
-    exact ⟨assemble_unitary hcsp right _ hreal, assemble_zeroes hcsp right _ hreal,
-           fun s' c' e hp => params_assemble hcsp right _ hreal hp⟩
+  obtain ⟨c, s, ph, hC, hr, rfl⟩ := givensElems_inv hreal h
+  have hcsp := cosSinPhase_spec htol hexa hexb hC
+  exact ⟨assemble_unitary hcsp right _ hr, assemble_zeroes hcsp right _ hr,
+         fun s' c' e hp => params_assemble hcsp right _ hr hp⟩
 
 -- non-vacuity (generic branch, complex form): a = 3/5, b = 4i/5, which = 'right'
 example : (givensElems (1/100000000) ⟨3/5, 0⟩ ⟨0, 4/5⟩ true).toOption.map
     (fun G => (G.g00, G.g01, G.g10, G.g11)) = some (⟨3/5, 0⟩, ⟨0, -4/5⟩, ⟨4/5, 0⟩, ⟨0, 3/5⟩) := by decide +kernel
 example : small (1/100000000) ⟨3/5, 0⟩ = false ∧ small (1/100000000) ⟨0, 4/5⟩ = false ∧
-    realish (1/100000000) ⟨3/5, 0⟩ ⟨0, 4/5⟩ = false := by decide +kernel
--- a = 0, complex b, 'right': since the repair 7be94873 of /repo (realness decided by the relative phase,
--- which is 1.0 in the `a` negligible branch) this is the real form, `G₁₁ = +0.0`; the signed-zero case of the
--- complex form is no longer reachable from `givens_matrix_elements` (the `assemble` lemma still covers it)
+    (cosSinPhase (1/100000000) ⟨3/5, 0⟩ ⟨0, 4/5⟩).toOption.map (fun t => (t.2.2, realPhase (1/100000000) t.2.2)) =
+      some (⟨0, -1⟩, false) ∧
+    realExactB (1/100000000) ⟨3/5, 0⟩ ⟨0, 4/5⟩ = true := by decide +kernel
+-- non-vacuity (real relative phase of two imaginary entries, a = 3i/5, b = -4i/5: the standard rotation is chosen since
+-- repair 7be94873; the earlier test on the imaginary parts of a and b chose the complex form)
+example : (givensElems (1/100000000) ⟨0, 3/5⟩ ⟨0, -4/5⟩ false).toOption.map
+    (fun G => (G.g00, G.g01, G.g10, G.g11)) = some (⟨4/5, 0⟩, ⟨3/5, 0⟩, ⟨-3/5, 0⟩, ⟨4/5, 0⟩) ∧
+    realExactB (1/100000000) ⟨0, 3/5⟩ ⟨0, -4/5⟩ = true := by decide +kernel
+-- a = 0, complex b, 'right': phase = 1.0, so (since repair 7be94873) the real form with G₁₁ = +0.0 ...
 example : (givensElems (1/100000000) 0 ⟨0, 1⟩ true).toOption.map (fun G => (G.g11, G.negZero11)) =
     some (0, false) := by decide +kernel
+-- ... while the complex 'right' form with sine = 0 (covered by the statement for every phase) has G₁₁ = -0.0
 example : (assemble true false 1 0 1).negZero11 = true := by decide +kernel
 
 /-- signed zero matters: with `a = 0`, complex `b` and `which='right'` the Model yields `G₁₁ = -0.0` and
@@ -378,8 +380,7 @@ theorem column_step_zeroes_target (tol : Rat) (htol : 0 < tol) (M : Mat) (i j : 
     (hi : i < M.length) (hj : 1 ≤ j) (hrow : j < (M.getD i []).length)
     (hexa : small tol (M.get i (j - 1)).conj = true → (M.get i (j - 1)).conj = 0)
     (hexb : small tol (M.get i j).conj = true → (M.get i j).conj = 0)
-    (hreal : realish tol (M.get i (j - 1)).conj (M.get i j).conj = true →
-      (M.get i (j - 1)).conj.im = 0 ∧ (M.get i j).conj.im = 0)
+    (hreal : RealExact tol (M.get i (j - 1)).conj (M.get i j).conj)
     (hG : givensElems tol (M.get i (j - 1)).conj (M.get i j).conj true = .ok G) :
     (rotateCols M G (j - 1) j).get i j = 0 :=
   column_step_zeroes_target_aux tol htol M i j G hi hj hrow hexa hexb hreal hG
@@ -529,8 +530,8 @@ theorem givens_decomposition_is_two_stages (tol : Rat) (Q : Mat) (n : Nat) (ai :
 -- non-vacuity: a 2 × 3 isometry whose left stage performs one row rotation
 example : (leftStage (1/100000000) (givensLeft 2 3) [[0, ⟨3/5, 0⟩, ⟨4/5, 0⟩], [0, ⟨-4/5, 0⟩, ⟨3/5, 0⟩]]
     (Mat.identity 2)).toOption.map (fun r => r.1) = some [[0, 1, 0], [0, 0, 1]] := by decide +kernel
-example : StepExactL (1/100000000) [[0, ⟨3/5, 0⟩, ⟨4/5, 0⟩], [0, ⟨-4/5, 0⟩, ⟨3/5, 0⟩]] 0 2 := by
-  unfold StepExactL; decide +kernel
+example : StepExactL (1/100000000) [[0, ⟨3/5, 0⟩, ⟨4/5, 0⟩], [0, ⟨-4/5, 0⟩, ⟨3/5, 0⟩]] 0 2 :=
+  stepExactLB_sound (by decide +kernel)
 
 -- non-vacuity: a 1 × 2 isometry (3/5, 4/5): the sweep returns (1, 0); the corner is empty
 example : (colSweep (1/100000000) (givensLayer 1 2) false (List.range (givensDepth 2))
@@ -578,8 +579,8 @@ example : Rect [[⟨3/5, 0⟩, ⟨4/5, 0⟩], [⟨-4/5, 0⟩, ⟨3/5, 0⟩]] 2 2
   refine ⟨rfl, ?_⟩; intro row h; simp at h; rcases h with rfl | rfl <;> rfl
 
 -- non-vacuity: the exact-regime conditions of that step hold (3/5, 4/5 are far above the tolerance, exactly real)
-example : StepExact (1/100000000) [[⟨3/5, 0⟩, ⟨4/5, 0⟩], [⟨-4/5, 0⟩, ⟨3/5, 0⟩]] 0 1 := by
-  unfold StepExact; decide +kernel
+example : StepExact (1/100000000) [[⟨3/5, 0⟩, ⟨4/5, 0⟩], [⟨-4/5, 0⟩, ⟨3/5, 0⟩]] 0 1 :=
+  stepExactB_sound (by decide +kernel)
 
 -- non-vacuity: the first step on a 3-4-5 rotation
 example : (givensElems (1/100000000) ((Mat.get [[⟨3/5, 0⟩, ⟨4/5, 0⟩], [⟨-4/5, 0⟩, ⟨3/5, 0⟩]] 0 0).conj)
